@@ -66,6 +66,8 @@ class Case:
         self.tr = Tree(self.ch)
         self.st = self.ch['states']
         self.tdict = {t['id']: t for t in self.ch['transitions']}
+        if any(t.get('ekey') for t in self.ch['transitions']):
+            acc.count('charts_with_one_guard_text_on_an_eventless_and_an_event_transition')
         if any(t.get('code_id') for t in self.ch['transitions']):
             acc.count('charts_with_exact_twin_transitions')
         self.digest = chart_digest(self.ch)
